@@ -1,7 +1,7 @@
 (* Instance predicates of C12 on one observed run.  Spec/ and Base/ only.
    An observation is the list of paths the implementation handed to open() (OpenRead) or to
    os.path.isfile()/os.path.exists() (Probe) while loading a cart or building, in order. *)
-From PV Require Import Base.Prelude Spec.PathSpec.
+From PV Require Import Base.Prelude Spec.PathSpec Spec.LoadPathSpec.
 
 Definition mentions (explicit : list bytes) (e : event) : bool :=
   existsb (zlist_eqb (snd e)) explicit.
@@ -37,7 +37,10 @@ Fixpoint load_path_patterns (s : bytes) : list bytes :=
   end.
 
 (* building from [main] with load path [lua_path]: every access lies under the directory of a
-   requiring file or under a directory named by the load path *)
+   requiring file or under a directory designated by a pattern of the load path (Spec/LoadPathSpec.v:
+   [pattern_root] = the directory part of the pattern in front of its first "?", minus [pattern_climb]
+   levels; for patterns of climb 0 - every usual one - that is [pattern_dir], and the roots are
+   PathSpec.require_roots) *)
 Definition holds_C12_require (cwd lua_path main : bytes) (explicit : list bytes) (tr : list event) : bool :=
   let pats := load_path_patterns lua_path in
-  all_opens_under_growing cwd (require_roots pats) (require_roots pats main) (relevant explicit tr).
+  all_opens_under_growing cwd (require_roots_general pats) (require_roots_general pats main) (relevant explicit tr).
